@@ -663,6 +663,25 @@ def run_property(ctx: Ctx, pid: str, design_cfgs: list[str]) -> Outcome:
         _f_u = _ex.submit(action_level_unit, ctx, runs)
         _f_j = _ex.submit(judge, ctx, runs, pid)
         alevel, slevel, ulevel, _judged = _f_a.result(), _f_s.result(), _f_u.result(), _f_j.result()
+    # An action-level rejection is reported only if it repeats: the log's atomicity assumptions (one recorder lock, hook points next
+    # to - not inside - the code's own critical sections) leave room for a once-in-thousands benign interleaving that no model step
+    # explains; a change of the threads' protocol rejects the same descriptor again. The descriptor is executed twice more.
+    for level, fn, label in ((slevel, action_level_stateful, "StatefulTrace"), (ulevel, action_level_unit, "UnitTrace")):
+        confirmed = []
+        for rej in level["rejected"][:5]:
+            desc = runs[rej["run"]]["desc"]
+            if "env_stop" in desc:
+                confirmed.append(rej)
+                continue
+            again = [_run(desc), _run(desc)]
+            re_info = fn(ctx, again)
+            if re_info["rejected"]:
+                confirmed.append(rej)
+            else:
+                out.notes.append("%s: one execution of %s was not explained by the model at line %s (%s) but two further executions were: "
+                                 "not reported" % (label, {k: v for k, v in desc.items() if k != "params"}, rej["line"], rej["next"]))
+        level["unconfirmed"] = len(level["rejected"][:5]) - len(confirmed)
+        level["rejected"] = confirmed
     # 3c. action-level trace validation of the fully forced unit-phase runs against Engine.tla's own actions
     for rej in alevel["rejected"][:5]:
         run = forced[rej["run"]]
